@@ -164,6 +164,18 @@ CLAIMS = {
         "Not decided: the truth of annotations stamped by ~600 plugins and of the optimizer's metadata refresh (later propagate passes re-derive most shapes, so a missing in-step refresh is not statically a wrong final annotation). Three defects found by R-C08c/f/g were repaired (fix 16c99d0, 33e03e2, 916c8c1).",
         "DESIGN.md §3 C08",
     ),
+    "C10": (
+        "wiring analysis of the transformation machinery: CFG dominance + binding-direction def-use for inline-call plugins, who-may-register check on rule registrations, reference-table check of forwarded rules, forwarding check of re-binding rules",
+        "Only the WIRING is decided, not the values any rule computes. Inline-call plugins (jit, pjit, custom_jvp_call, custom_vjp_call, remat2) must read the primal sub-jaxpr (never a derivative-rule key), bind every inner "
+        "input variable to the outer value before the body is lowered through the checked dispatcher and bind every outer output to the inner value after it, all on the same jaxpr object; every batching / JVP / transpose rule "
+        "registration (239 sites: registry tables and register_* helpers) must target a primitive of the same module with a rule / impl function of that module; rules forwarded from a lax primitive must come from the primitive "
+        "that implements the same function (reference table); rules that bind the primitive again must forward every parameter (C19 R-C19e). These are necessary conditions of 'vmap / grad / jit of f exports the transformed f': "
+        "breaking one makes every program using that primitive under the transformation export a different function.",
+        "NOT decided (and not decidable by this family): whether any batching, JVP or transpose rule computes the right values, in_axes/out_axes arithmetic, linear-transpose backfill correctness. In this environment every export with an inner "
+        "jax.jit fails loudly (installed-jax incompatibility in JitPlugin._freshen_closed_jaxpr, part of the pinned always-fail set), so most of C10 cannot even be observed at run time here. Frozen tables: INLINE_TABLE, FORWARD_TABLE "
+        "(functions outside them are UNRESOLVED).",
+        "DESIGN.md §3 C10 / §4",
+    ),
     "C16": (
         "exit-path analysis of the plugin lookup, CFG-based swallow lint over every broad non-re-raising handler around emitting code, structural check of the optimizer failure policy",
         "A failed plugin lookup must raise on every path; a broad handler around node emission / binding / sub-jaxpr lowering that does not re-raise must fall through to another lowering, binding or raise before a normal return "
@@ -175,8 +187,6 @@ CLAIMS = {
 }
 
 NOT_APPLICABLE = {
-    "C10": "Correctness of batching/JVP/transpose rules of ~240 substitute primitives is a statement about computed values under vmap/grad; no structural clause is a "
-           "necessary condition that the pinned tests do not already assert as data (allow/block lists). Static analysis cannot decide it (DESIGN.md §4).",
 }
 
 
